@@ -4,7 +4,7 @@ import json, os, subprocess
 ROOT = os.path.dirname(os.path.dirname(os.path.abspath(__file__)))
 ids = [json.loads(l)["id"] for l in open(os.path.join(ROOT, "properties.jsonl"))]
 
-TRUST = "grin_core/grin_keychain/grin_chain/grin_store 5.3.3, secp256k1zkp, LMDB atomic commit, serde_json, proptest, rustc; release-semantics build (overflow-checks off, unwinding panics)"
+TRUST = "grin_core/grin_keychain/grin_chain/grin_store 5.3.3, secp256k1zkp, LMDB atomic commit, serde_json, proptest, rustc; release-profile build with unwinding panics; overflow checks ON in the grin_wallet_* crates, off upstream"
 
 CHECKS = {
  "C01": dict(
